@@ -114,6 +114,46 @@ func RemoveInputParam(callable syntax.Callable, param string, asts []*syntax.Ast
 	return removeInputParam(match, callable, param, asts, nil)
 }
 
+// removesBinding returns true if one of the edits already removes the binding
+// for the given parameter from the given call.
+func (edits editSet) removesBinding(call *syntax.CallStm, param string) bool {
+	for _, e := range edits {
+		if e, ok := e.(*removeCallInput); ok && e.Param == param &&
+			e.Call.Id == call.Id && e.Call.DecId == call.DecId &&
+			e.Call.Line() == call.Line() &&
+			syntax.DefiningFile(e.Call) == syntax.DefiningFile(call) {
+			return true
+		}
+	}
+	return false
+}
+
+// removesCall returns true if one of the edits already removes the given call
+// from the given pipeline.
+func (edits editSet) removesCall(pipe *syntax.Pipeline, call *syntax.CallStm) bool {
+	for _, e := range edits {
+		if e, ok := e.(*removeCall); ok && e.Call.Id == call.Id &&
+			e.Pipeline.Id == pipe.Id &&
+			syntax.DefiningFile(e.Pipeline) == syntax.DefiningFile(pipe) {
+			return true
+		}
+	}
+	return false
+}
+
+// removesInput returns true if one of the edits already removes the given
+// input parameter from the given callable.
+func (edits editSet) removesInput(callable syntax.Callable, param string) bool {
+	for _, e := range edits {
+		if e, ok := e.(*removeCallableInput); ok && e.Param == param &&
+			e.Callable.GetId() == callable.GetId() &&
+			syntax.DefiningFile(e.Callable) == syntax.DefiningFile(callable) {
+			return true
+		}
+	}
+	return false
+}
+
 func removeInputParam(match matcher,
 	callable syntax.Callable, param string,
 	asts []*syntax.Ast, edits editSet) editSet {
@@ -147,6 +187,10 @@ func removeInputParam(match matcher,
 					}
 				}
 				for _, c := range pipe.Calls {
+					if edits.removesCall(pipe, c) {
+						// A call which is going away does not use anything.
+						continue
+					}
 					if c.DecId == callable.GetId() {
 						id := makeDecId(c)
 						if _, ok := modified[id]; !ok {
@@ -158,13 +202,17 @@ func removeInputParam(match matcher,
 							modified[id] = struct{}{}
 						}
 						for _, b := range c.Bindings.List {
-							if b.Id != param {
+							if b.Id != param && !edits.removesBinding(c, b.Id) {
 								removeIdRefs(inputs, b.Exp, syntax.KindSelf)
 							}
 						}
 					} else {
 						for _, b := range c.Bindings.List {
-							removeIdRefs(inputs, b.Exp, syntax.KindSelf)
+							// Bindings which an earlier step of this cascade
+							// already removes no longer keep an input alive.
+							if !edits.removesBinding(c, b.Id) {
+								removeIdRefs(inputs, b.Exp, syntax.KindSelf)
+							}
 						}
 					}
 					if c.Modifiers.Bindings != nil {
@@ -176,6 +224,10 @@ func removeInputParam(match matcher,
 				if len(inputs) > 0 {
 					// Remove inputs which are no longer bound.
 					for input := range inputs {
+						if edits.removesInput(pipe, input) {
+							// Already being removed by an earlier step.
+							continue
+						}
 						fmt.Fprintf(os.Stderr,
 							"Input %s of pipeline %s in %s:%d is no longer used\n",
 							input, pipe.Id, pipe.File().FileName, pipe.Line())
@@ -217,9 +269,11 @@ func removeUnboundPipelineInputs(pipe *syntax.Pipeline,
 		}
 	}
 	for _, c := range pipe.Calls {
-		if !removedCalls.Contains(c.Id) {
+		if !removedCalls.Contains(c.Id) && !edits.removesCall(pipe, c) {
 			for _, b := range c.Bindings.List {
-				removeIdRefs(inputs, b.Exp, syntax.KindSelf)
+				if !edits.removesBinding(c, b.Id) {
+					removeIdRefs(inputs, b.Exp, syntax.KindSelf)
+				}
 			}
 			if c.Modifiers.Bindings != nil {
 				for _, b := range c.Modifiers.Bindings.List {
@@ -232,6 +286,9 @@ func removeUnboundPipelineInputs(pipe *syntax.Pipeline,
 	if len(inputs) > 0 {
 		match := matchCallable(pipe)
 		for input := range inputs {
+			if edits.removesInput(pipe, input) {
+				continue
+			}
 			fmt.Fprintf(os.Stderr,
 				"Input %s of pipeline %s in %s:%d is no longer used\n",
 				input, pipe.Id, pipe.File().FileName, pipe.Line())
